@@ -5,3 +5,8 @@ use super::*;
 pub(crate) fn empty_views() -> Views {
     Views { source_type_id: TypeId::of::<()>(), view_casters: boxcar::Vec::new() }
 }
+
+/// The downcaster `Views::new::<Db>()` registers first, for a *sized* view type (the harness database itself).
+pub(crate) fn caster<Db: crate::Database>() -> DatabaseDownCaster<Db> {
+    DatabaseDownCaster(ViewCaster::new::<Db>(|db| db.ptr.cast::<Db>()), PhantomData)
+}
